@@ -11,14 +11,17 @@
      `light_mode`), so it stores `xpos[body] + R(xquat[body])·cam_pos − subtree_com[body]`.
      The same happens to `cam_pos0` in mode TRACK, to `cam_mat0` in modes TARGETBODY(COM) (the look-at matrix is
      stored instead of the body-frame orientation) and to `light_pos0 / light_poscom0 / light_dir0`.
-     Reproduction on the real code: /verif/harness/props/c33.py (`camlight-mode` scenario) or the stand-alone
-     script in the C33 report (one body, `<camera mode="trackcom" pos="1 0 0"/>`, change `body_mass`, call
-     `mjw.set_const`, compare `m.cam_poscom0` with `mujoco.mj_setConst`).
-  2. `cam_ref_batch_index_witness`: `_compute_cam_pos0` indexes `cam_poscom0` and `cam_mat0` with the batch size of
-     `cam_pos0` (the kernel has no other size parameter; `smooth._cam_local_to_global` reads the three fields with
-     three separate sizes).  With `cam_pos0` unbatched and `cam_mat0` batched, world 1's orientation lands in slot 0
-     and slot 1 is never written; with `cam_pos0` batched and `cam_mat0` unbatched the task of world 1 writes slot 1
-     of a one-slot array.  Same for `_compute_light_pos0`.
+     Reproduction on the real code: /verif/harness/props/c33.py (trigger `camlight-mode`) or the stand-alone
+     /verif/scripts/repro_c33.py (D1: `<camera mode="trackcom"/>`, change `body_mass`, call `mjw.set_const`, compare
+     `m.cam_poscom0` / `cam_xpos` after forward with `mujoco.mj_setConst`; D2, D3 are items 3, 4 below; D4 is repaired).
+  2. (removed) the former `cam_ref_batch_index_witness` — all three camera outputs indexed with `cam_pos0`'s batch size —
+     was repaired in /repo ("fix: set_const indexed cam_poscom0, cam_mat0, light_poscom0 and light_dir0 with another
+     field's batch size"); the positive statement is `Props.C33.cam_light_ref_slices`.
+  3. `body_invweight0_fallback_witness`: degenerate component of `body_invweight0` replaced by the other one; MuJoCo
+     (≥ 3.11, the reference of the repo's own tests) keeps the plain means.
+  4. `dampratio_noise_sensitivity_witness`: the absolute test `|moment| > 1e-15` of `_resolve_dampratio` lets binary32
+     round-off (1e-9) into `Σ dof_M0/moment²`; on the real code a dampratio position actuator on a spatial tendon of a
+     floating body gets kv = -3.5e9 where MuJoCo gets -2.7e3.
 -/
 import MjwVerif.Props.C33
 import MjwVerif.Gen.Smooth
@@ -69,8 +72,8 @@ noncomputable def newPoscom0 (cam_mode cam_bodyid cam_target : Int → Int)
     xquat com ox om s1 s2 s3 s4 s5 w c
   let camx : Int → Int → V3 ℝ := fun w' c' =>
     V3.ofList (Write.lookupV camW "cam_xpos_out" [w', c'] (V3.toList (ox w' c')))
-  Write.lookupV (_compute_cam_pos0 cam_bodyid cam_target camx om xpos com pos0 poscom0 mat0 s4 w c)
-    "cam_poscom0_out" [Int.tmod w s4, c] (V3.toList (poscom0 (Int.tmod w s4) c))
+  Write.lookupV (_compute_cam_pos0 cam_bodyid cam_target camx om xpos com pos0 poscom0 mat0 s4 s5 s3 w c)
+    "cam_poscom0_out" [Int.tmod w s5, c] (V3.toList (poscom0 (Int.tmod w s5) c))
 
 /-- **set_const never recomputes `cam_poscom0` of a TRACKCOM camera**: for all `cam_pos`, body poses, centres of
     mass and batch sizes, the value stored is the value that was there before. -/
@@ -111,15 +114,52 @@ theorem set_const_tracking_camera_witness :
       V3.ofList]
     try norm_num
 
-/-- (2) the batch slot of all three camera outputs is `w % cam_pos0.shape[0]` -/
-theorem cam_ref_batch_index_witness (cam_bodyid cam_target : Int → Int) (camx : Int → Int → V3 ℝ)
-    (camm : Int → Int → M33 ℝ) (xpos com o1 o2 : Int → Int → V3 ℝ) (o3 : Int → Int → M33 ℝ) :
-    -- cam_pos0 unbatched (shape0 = 1): world 1 writes slot 0 of cam_poscom0 / cam_mat0
-    (_compute_cam_pos0 cam_bodyid cam_target camx camm xpos com o1 o2 o3 1 1 0).map (fun x => (x.arr, x.idx))
-      = [("cam_pos0_out", [0, 0]), ("cam_poscom0_out", [0, 0]), ("cam_mat0_out", [0, 0])]
-    -- cam_pos0 batched over 2 worlds: world 1 writes slot 1 of cam_poscom0 / cam_mat0, whatever their own size
-    ∧ (_compute_cam_pos0 cam_bodyid cam_target camx camm xpos com o1 o2 o3 2 1 0).map (fun x => (x.arr, x.idx))
-      = [("cam_pos0_out", [1, 0]), ("cam_poscom0_out", [1, 0]), ("cam_mat0_out", [1, 0])] := by
-  constructor <;> (rw [cam_pos0_spec]; simp)
+/-- (3) **`body_invweight0` differs from MuJoCo (≥ 3.11) for degenerate bodies.**  A body that can only translate (slide
+    joints): rotational block of `J M⁻¹ Jᵀ` zero, translational diagonal `(1/4, 1/4, 0)`.  `_finalize_body_invweight0`
+    stores the translational mean in BOTH components (`Lemmas.C33.bodyInvweight_fallback`), `mujoco.mj_setConst` the plain
+    means `(third·½, 0)`.  (MuJoCo additionally special-cases slider-only "simple" bodies: `(1/mass, 0)`.) -/
+theorem body_invweight0_fallback_witness :
+    _finalize_body_invweight0 (fun _ => 1) (fun _ _ k => if k = 0 ∨ k = 1 then (1 / 4 : ℝ) else 0)
+        (fun _ _ => ⟨0, 0⟩) 1 1 0 1
+      = [Write.mk "body_invweight0_out" [0, 1] (WVal.v [third * (1 / 2), third * (1 / 2)]) WKind.set]
+    ∧ third * (1 / 2) ≠ 0 := by
+  have hm : minval < third * (1 / 2) := by unfold minval third; norm_num
+  constructor
+  · rw [finalize_body_invweight0_spec]
+    have hb : ¬ ((1 : Int) = 0 ∨ (fun _ : Int => (1 : Int)) 1 = 0) := by simp
+    rw [if_neg hb]
+    have hA : bodyInvweight (fun k : Int => if k = 0 ∨ k = 1 then (1 / 4 : ℝ) else 0)
+        = (third * (1 / 2), third * (1 / 2)) := by
+      have e1 : third * ((fun k : Int => if k = 0 ∨ k = 1 then (1 / 4 : ℝ) else 0) 0
+          + (fun k : Int => if k = 0 ∨ k = 1 then (1 / 4 : ℝ) else 0) 1
+          + (fun k : Int => if k = 0 ∨ k = 1 then (1 / 4 : ℝ) else 0) 2) = third * (1 / 2) := by norm_num
+      have e2 : third * ((fun k : Int => if k = 0 ∨ k = 1 then (1 / 4 : ℝ) else 0) 3
+          + (fun k : Int => if k = 0 ∨ k = 1 then (1 / 4 : ℝ) else 0) 4
+          + (fun k : Int => if k = 0 ∨ k = 1 then (1 / 4 : ℝ) else 0) 5) = 0 := by norm_num
+      unfold bodyInvweight
+      rw [e1, e2, if_neg (fun h => absurd h.1 (not_lt.mpr hm.le)), if_pos ⟨minval_pos, hm⟩]
+    rw [hA]
+    rfl
+  · exact ne_of_gt (lt_trans minval_pos hm)
+
+/-- (4) **dampratio resolution is hypersensitive to round-off in the moment arm.**  `_resolve_dampratio` takes every
+    entry with `|moment| > 1e-15` into the reflected mass `Σ dof_M0/moment²` (`Props.C33.resolve_dampratio_spec`).
+    A moment entry that is analytically 0 but carries binary32 round-off `1e-9` (spatial-tendon / site transmissions
+    on a floating base) contributes `1e18`: the stored damping grows by the factor `1e9`.  (MuJoCo's identical test is
+    harmless in binary64, where the round-off is `1e-17 < mjMINVAL`.) -/
+theorem dampratio_noise_sensitivity_witness :
+    reflectedMass 2 0 (fun k => k) (fun k => if k = 0 then (1 / 10 ^ 9 : ℝ) else 1) (fun _ => 1) = 10 ^ 18 + 1
+    ∧ reflectedMass 2 0 (fun k => k) (fun k => if k = 0 then (0 : ℝ) else 1) (fun _ => 1) = 1 := by
+  have h1 : minval < 1 := by unfold minval; norm_num
+  have h9 : minval < |(1 / 10 ^ 9 : ℝ)| := by
+    rw [abs_of_pos (by positivity)]; unfold minval; norm_num
+  have h0 : ¬ minval < |(0 : ℝ)| := by rw [abs_zero]; exact not_lt.mpr minval_pos.le
+  have h9' : minval < (1 / 1000000000 : ℝ) := by unfold minval; norm_num
+  constructor
+  · unfold reflectedMass
+    simp [Finset.sum_range_succ, h1, h9, h9']
+    all_goals (unfold minval; norm_num)
+  · unfold reflectedMass
+    simp [Finset.sum_range_succ, h1, h0, minval_pos.le]
 
 end Mjw.Props.C33
